@@ -10,6 +10,9 @@ from common import Case
 from props.C15 import call, onat, bl
 
 
+#: cross-tree pair queries are asked for trees up to this size
+TWIN_MAX = 12
+
 #: pairs of DISTINCT objects that compare equal (==) and hash equal, of five sorts
 EQ_UNIV = ["e:1", "e:1", "t:1,2", "t:1,2", "i:4", "i:4", "d:3", "d:3", "s:q", "s:q"]
 
@@ -196,8 +199,17 @@ class Prop:
         hist_fail = None
         try:
             if "hist" in desc:
-                tree, U, objs, sh, errors = NH.build_hist(desc)
-                hist_fail = NH.consistency(tree, objs, sh, errors)
+                early = []
+
+                def probe(tree, U, objs, sh, errors, k):
+                    # QUERY - mutate - query again: every query (node, pair, tree level) is asked before every op of the
+                    # history as well, on the same tree object, and checked by the oracle each time
+                    f = NH.consistency(tree, objs, sh, errors) or self._observe(tree, U, desc, twin=False)[1]
+                    if f and not early:
+                        early.append(f"before step {k} of the history: {f}")
+
+                tree, U, objs, sh, errors = NH.build_hist(desc, probe if desc.get("probe", True) else None)
+                hist_fail = (early[0] if early else None) or NH.consistency(tree, objs, sh, errors)
             else:
                 tree, U = B.build(desc)
         except Exception:
@@ -217,6 +229,17 @@ class Prop:
             d2["nodes"] = fix(desc["nodes"])
             desc = d2
             tree, U = B.build(desc)
+        obs, fail, nodes, coq_in = self._observe(tree, U, desc, twin=True)
+        fail = hist_fail or fail
+        typed = bool(desc.get("typed"))
+        return Case(desc=desc, coq_input=coq_in, impl_obs=obs, oracle_fail=fail,
+                    nontrivial=len(nodes) >= 3 or bool(desc.get("hist")),
+                    key=H.digest([bool(desc.get("typed")), desc["univ"], desc["nodes"], desc.get("order_seed"), desc.get("hist")]),
+                    stats=dict(nodes=len(nodes), depth=B.nodes_depth(desc["nodes"]), typed=int(typed),
+                               max_sibs=max((len(p._children or []) for p in [tree._root] + nodes), default=0)))
+
+    def _observe(self, tree, U, desc, twin):
+        """ask every query on the tree as it is now; returns (observation, oracle failure, nodes, model input)"""
         nodes = B.all_nodes(tree._root)
         # compact case terms: node identities are renumbered locally (pre-order, 1..n; 0 = system root) in the model
         # input and in the observation alike (a bijection on the nodes of this tree)
@@ -289,18 +312,41 @@ class Prop:
                     num(call(lambda: len(tree))) if call(lambda: len(tree)) == call(lambda: tree.count) else -2,
                     num(call(lambda: tree.system_root.count_descendants())),
                     num(call(lambda: tree.system_root.count_descendants(leaves_only=True)))]
-        obs = [per_node, pairs, num(call(lambda: tree.calc_height())), tree_obs]
-        fail = hist_fail or self.oracle(tree, nodes, obs, lid)
+        # nodes of DIFFERENT trees are never related: a twin tree with the same data, data_ids and NODE_IDs is built
+        # and every ordered cross-tree pair is asked; the observation lists the answers that are not False/False/None
+        cross = []
+        if twin and 0 < len(nodes) <= TWIN_MAX:
+            t2 = type(tree)("twin")
+            image = {id(tree._root): t2._root}
+            for n in nodes:
+                kw = dict(data_id=n._data_id, node_id=n._node_id)
+                if typed:
+                    kw["kind"] = n.kind
+                image[id(n)] = image[id(n._parent)].add(n._data, **kw)
+            tnodes = [image[id(n)] for n in nodes]
+            for i, a in enumerate(nodes):
+                for j, b in enumerate(tnodes):
+                    for code, r in ((1, call(lambda: a.is_descendant_of(b))), (2, call(lambda: a.is_ancestor_of(b))),
+                                    (3, call(lambda: b.is_descendant_of(a))), (4, call(lambda: b.is_ancestor_of(a)))):
+                        if r is not False:
+                            cross.append([i + 1, j + 1, code])
+                    for code, r in ((5, call(lambda: a.get_common_ancestor(b))), (6, call(lambda: b.get_common_ancestor(a)))):
+                        if r is not None:
+                            cross.append([i + 1, j + 1, code])
+        obs = [per_node, pairs, num(call(lambda: tree.calc_height())), tree_obs, cross]
+        fail = self.oracle(tree, nodes, obs, lid)
         coq_in = re.sub(r"\(Tz (\d+) ", lambda m: f"(Tz {local[int(m.group(1))]} ", H.coq_forest(tree._root, U))
-        return Case(desc=desc, coq_input=coq_in, impl_obs=obs, oracle_fail=fail,
-                    nontrivial=len(nodes) >= 3 or bool(desc.get("hist")),
-                    key=H.digest([bool(desc.get("typed")), desc["univ"], desc["nodes"], desc.get("order_seed"), desc.get("hist")]),
-                    stats=dict(nodes=len(nodes), depth=B.nodes_depth(desc["nodes"]), typed=int(typed),
-                               max_sibs=max((len(p._children or []) for p in [tree._root] + nodes), default=0)))
+        return obs, fail, nodes, coq_in
 
     def oracle(self, tree, nodes, obs, lid):
-        per_node, pairs, th, tree_obs = obs
+        per_node, pairs, th, tree_obs, cross = obs
         root = tree._root
+        if cross:
+            i, j, code = cross[0]
+            what = {1: 'a.is_descendant_of(b)', 2: 'a.is_ancestor_of(b)', 3: 'b.is_descendant_of(a)', 4: 'b.is_ancestor_of(a)',
+                    5: 'a.get_common_ancestor(b)', 6: 'b.get_common_ancestor(a)'}[code]
+            return (f"cross-tree: a = node {i} of the tree, b = node {j} (pre-order) of a twin tree with the same node_ids: {what} "
+                    f"relates nodes of different trees ({len(cross)} such answers)")
 
         def ids(l):
             return [lid(x) for x in l]
@@ -389,3 +435,8 @@ CORPUS = [
 ]
 
 PROP = Prop()
+
+import parts  # noqa: E402
+import parts_misc  # noqa: E402
+
+parts.attach(PROP, parts_misc.NODEMISC, parts_misc.FORWARD)   # Node/Tree miscellany; Node.__getattr__ (models Forest/MiscNode.v, MiscForward.v; theorems at the end of Properties/C10.v)
